@@ -190,6 +190,7 @@ type Source struct {
 	TornDown   atomic.Int64
 	Live       atomic.Int64
 	MaxLive    atomic.Int64
+	ready      atomic.Int64 // subscriptions whose destination is registered
 	LateAsk    atomic.Int64 // emissions attempted on a subscription whose teardown already ran
 
 	mu        sync.Mutex
@@ -256,6 +257,7 @@ func (s *Source) subscribe(ctx context.Context, dest ro.Observer[int]) ro.Teardo
 	s.ctxs[idx] = ctx
 	s.released[idx] = rel
 	s.tears[idx] = tc
+	s.ready.Add(1)
 	if ctx == nil {
 		s.CtxNil++
 	} else if v := ctx.Value(rec.SubKey); v != nil {
@@ -391,7 +393,7 @@ func (s *Source) emit(idx int, n Notif) Emission {
 
 // Puppet API: emit into the most recent subscription (or a given one).
 
-func (s *Source) last() int { return int(s.Subscribed.Load()) - 1 }
+func (s *Source) last() int { return int(s.ready.Load()) - 1 }
 
 func (s *Source) Next(v int) Emission  { return s.emit(s.last(), Notif{K: rec.Next, V: v}) }
 func (s *Source) Error() Emission      { return s.emit(s.last(), Notif{K: rec.Error}) }
@@ -402,7 +404,7 @@ func (s *Source) SendTo(idx int, n Notif) Emission {
 }
 
 // IsSubscribed reports whether at least one subscription happened.
-func (s *Source) IsSubscribed() bool { return s.Subscribed.Load() > 0 }
+func (s *Source) IsSubscribed() bool { return s.ready.Load() > 0 }
 
 // Emissions returns a copy of the emission log.
 func (s *Source) Emissions() []Emission {
